@@ -423,7 +423,11 @@ def fam_expr(rng):
     # become symbol names, hence end up in saved tables and error messages)
     ops = rng.sample(OPS_U + OPS[:2] if rng.random() < 0.25 else OPS, n)
     with_prio = rng.random() < 0.55
-    layout = "comments" if rng.random() < 0.25 else "ws"
+    layout = "comments" if rng.random() < 0.3 else "ws"
+    if layout == "comments" and "/" not in ops and rng.random() < 0.6:
+        # an operator that is a prefix of the comment syntax (// and /* */): layout
+        # skipping and token recognition compete at such positions
+        ops[0] = "/"
     parens = rng.random() < 0.8
     if with_prio:
         prios = {op: rng.randint(1, 3) for op in ops}
